@@ -14,6 +14,7 @@ use crate::{
 };
 
 use super::{CfgError, DiagnosticManager, GenerationPass, LintPass};
+use std::collections::HashSet;
 
 #[derive(Default)]
 pub struct DebugInfo {
@@ -25,14 +26,25 @@ pub struct Manager;
 impl Manager {
     pub fn gen_full_cfg(nodes: Vec<ParserNode>) -> Result<Cfg, Box<CfgError>> {
         // Stage 1: Generate names of interrupt handler functions
-        let interrupt_call_names = {
-            let mut cfg = Cfg::new(nodes.clone())?;
+        // A handler can install another one: its code only counts once it is
+        // known to be a handler, so the search is repeated with the names
+        // found so far until no new one turns up
+        let mut interrupt_call_names = HashSet::new();
+        loop {
+            let mut cfg = Cfg::new_with_predefined_call_names(
+                nodes.clone(),
+                &Some(interrupt_call_names.clone()),
+            )?;
             NodeDirectionPass::run(&mut cfg)?;
             // The values are those of the graph the analysis works on: without
             // the ways out of unreachable code and past exit ecalls
             Self::settle_values_and_exits(&mut cfg)?;
-            cfg.get_names_of_interrupt_handler_functions()
-        };
+            let found = cfg.get_names_of_interrupt_handler_functions();
+            if found.is_subset(&interrupt_call_names) {
+                break;
+            }
+            interrupt_call_names.extend(found);
+        }
 
         // Stage 2: Generate full CFG
         let mut cfg = Cfg::new_with_predefined_call_names(nodes, &Some(interrupt_call_names))?;
